@@ -27,8 +27,10 @@ thread_local! {
 
 /// content classes: 0 pattern; 1 all zero; 2 all 0xFF; 3 leading zero byte(s) then pattern;
 /// 4 ASN.1-looking data whose header announces less than the part holds; 5 ASN.1-looking data whose
-/// header announces exactly the rest; 6 trailing zero bytes
-pub const CONTENTS: u8 = 7;
+/// header announces exactly the rest; 6 trailing zero bytes; 7 ASN.1-looking header announcing 12 bytes
+/// less than the part holds, everything behind the announced end zero; 8 an ECDSA-signature-like
+/// frame 30 L 02 Lr .. 02 Ls .. whose outer length disagrees with the inner ones
+pub const CONTENTS: u8 = 9;
 
 /// precomputed filler patterns (salts 21..=26) per content class, sliced instead of regenerated
 fn fill(len: usize, salt: usize) -> &'static [u8] {
@@ -77,6 +79,37 @@ fn fill(len: usize, salt: usize) -> &'static [u8] {
             let n = v.len();
             v[n - 1] = 0;
             v[n - 2] = 0;
+            Box::leak(v.into_boxed_slice())
+        });
+    }
+    if c == 8 && len >= 12 {
+        static S: OnceLock<std::sync::Mutex<std::collections::HashMap<(usize, usize), &'static [u8]>>> = OnceLock::new();
+        let k = S.get_or_init(Default::default);
+        let mut k = k.lock().unwrap();
+        return k.entry((len, salt)).or_insert_with(|| {
+            let mut v = fill_bytes(len, salt);
+            let half = ((len - 6) / 2).min(33) as u8;
+            v[0] = 0x30;
+            v[1] = (len.min(120) as u8).wrapping_sub(5); // not 4 + Lr + Ls
+            v[2] = 0x02;
+            v[3] = half;
+            let p = 4 + half as usize;
+            v[p] = 0x02;
+            v[p + 1] = half;
+            Box::leak(v.into_boxed_slice())
+        });
+    }
+    if c == 7 && len >= 20 {
+        static K: OnceLock<std::sync::Mutex<std::collections::HashMap<(usize, usize), &'static [u8]>>> = OnceLock::new();
+        let k = K.get_or_init(Default::default);
+        let mut k = k.lock().unwrap();
+        return k.entry((len, salt)).or_insert_with(|| {
+            let mut v = fill_bytes(len, salt);
+            let announced = len - 4 - 12;
+            v[..4].copy_from_slice(&[0x30, 0x82, (announced >> 8) as u8, announced as u8]);
+            for b in v[4 + announced..].iter_mut() {
+                *b = 0;
+            }
             Box::leak(v.into_boxed_slice())
         });
     }
@@ -423,6 +456,35 @@ pub fn run(ctx: &'static Ctx) {
             }
         });
     }
+    // no memory between constructor calls: every ordered pair of (x, y) choices over two values each
+    {
+        let xs = [fill_bytes(32, 201), fill_bytes(32, 202)];
+        let ys = [fill_bytes(32, 203), fill_bytes(32, 204)];
+        let one = |xi: usize, yi: usize| -> Result<Vec<u8>, String> {
+            guard(|| {
+                let key = cosey::EcdhEsHkdf256PublicKey { x: Bytes::from_slice(&xs[xi]).unwrap(), y: Bytes::from_slice(&ys[yi]).unwrap() };
+                let r = ctap1::Response::Register(register::Response::new(5, &key, Bytes::new(), Bytes::new(), Bytes::new()));
+                let mut buf: iso7816::Data<256> = iso7816::Data::new();
+                r.serialize(&mut buf).expect("fits");
+                buf.to_vec()
+            })
+        };
+        sweep_seq(ctx, "constructor call pairs over two x and two y coordinates", 16, "Response::new(x_a, y_b) then Response::new(x_c, y_d) for every (a, b, c, d): the second response carries exactly its own key", |idx, l| {
+            let (a, b, c, d) = ((idx >> 3 & 1) as usize, (idx >> 2 & 1) as usize, (idx >> 1 & 1) as usize, (idx & 1) as usize);
+            l.nontrivial += 1;
+            l.bump("constructor pair");
+            let _ = one(a, b);
+            let got = one(c, d);
+            let mut want = vec![5u8, 4];
+            want.extend_from_slice(&xs[c]);
+            want.extend_from_slice(&ys[d]);
+            want.push(0);
+            if got.as_ref().ok() != Some(&want) {
+                let v = Verdict::fail(format!("{}|register|result-depends-on-previous-call", P), hex(&want), format!("{:?} after a response built from x{} y{}", got.map(|g| hex(&g)), a, b));
+                l.fail(ctx, idx, v, || json!({"kind": "constructor-pair", "first": [a, b], "second": [c, d], "note": "re-run the check to replay: the outcome depends on process history"}));
+            }
+        });
+    }
     // content classes of the variable parts (coordinates, key handle, certificate, signature)
     {
         let mut cases: Vec<(Resp, u8)> = Vec::new();
@@ -497,6 +559,7 @@ pub fn replay(case: &Value) -> Verdict {
             let h: Vec<u8> = case["history"].as_array().unwrap().iter().map(|x| x.as_u64().unwrap() as u8).collect();
             Histories { alphabet: history_alphabet(), max: 3 }.check(&h)
         }
+        Some("constructor-pair") => Verdict::pass(), // history-dependent: only a fresh run of the check reproduces it
         _ => {
             let f: Vec<u64> = case["fields"].as_array().unwrap().iter().map(|x| x.as_u64().unwrap()).collect();
             let r = match f[0] {
